@@ -509,6 +509,7 @@ func init() {
 			{Name: "dyadic-deep", N: func(c *Ctx) int { return tierN(c, 6000, 600000) }, Run: c14DyadicDeep},
 			{Name: "shortest-repr", N: func(c *Ctx) int { return tierN(c, 1500, 150000) }, Run: c14Shortest},
 			{Name: "float-quotients", N: func(c *Ctx) int { return tierN(c, 1500, 150000) }, Run: c14Quotients},
+			{Name: "carrier-prefixes", N: c14PrefixN, Run: c14PrefixRun, Exhaustive: true},
 			{Name: "integer-sums", N: func(c *Ctx) int { return tierN(c, 2000, 200000) }, Run: c14IntSums},
 			{Name: "precise", N: func(c *Ctx) int { return len(c14Precise) * len(c14PreciseTemplates) }, Run: c14PreciseRun, Exhaustive: true},
 			{Name: "boundary", N: func(c *Ctx) int { return len(c14Big) * len(c14BigTemplates) }, Run: c14Boundary, Exhaustive: true},
